@@ -7,7 +7,7 @@ from .core import (Sym, P, C, Ctx, explore, Unsupported, PathLimit, sym_input, l
 from . import solve, terms as T
 from .instrument import source_hash
 
-SAFETY = {"ieee-bump-effective", "division-nonzero", "log-arg-positive", "sqrt-arg-nonneg", "pow-domain", "index-in-range", "assert-holds",
+SAFETY = {"division-nonzero", "log-arg-positive", "sqrt-arg-nonneg", "pow-domain", "index-in-range", "assert-holds",
           "no-unexpected-raise"}
 
 
@@ -143,9 +143,10 @@ def native_eval(h, inp):
         common.NATIVE_DTYPE[0] = torch.float32
         try:
             inp32 = {k: np.asarray(v, dtype=np.float32).astype(np.float64) if np.asarray(v).dtype.kind == "f" else v for k, v in inp.items()}
-            o32 = _native_eval(h, inp32, clauses=False)
-            for k in ("no-raise", "finite"):
-                if o32.get(k) is False and out.get(k) is not False:
+            c32 = bool(getattr(h, "clauses32", False))
+            o32 = _native_eval(h, inp32, clauses=c32)
+            for k in (list(o32) if c32 else ("no-raise", "finite")):
+                if not k.startswith("_") and o32.get(k) is False and out.get(k) is not False:
                     out[k] = False; out["_outcome32"] = o32.get("_outcome")
         except Exception as e:
             out["_float32_error"] = f"{type(e).__name__}: {e}"
@@ -196,7 +197,7 @@ def keys_for(ob):
         return [ob["kind"] + ":" + ob["label"]]
     if ob["kind"] in SAFETY:
         return ["finite", "no-raise"]
-    if ob["kind"] == "cut-lemma":
+    if ob["kind"] in ("cut-lemma", "ieee-bump-effective"):
         return ["*"]      # a failed lemma is witnessed by ANY contract clause failing natively
     return [ob["label"] or ob["kind"]]
 
